@@ -68,7 +68,6 @@ type seqRun struct {
 	orphan    [2]map[int]bool   // classification aid: CIDs with a queued task but no want-list entry on the server
 	goneOrph  [2]map[int]bool   // ... and whether that was so when the peer cancelled the want
 	fullDrop  [2]map[int]bool   // classification aid: CIDs that a full want-list message of the peer dropped (not restated) earlier
-	staleFull [2]map[int]bool   // classification aid: server want-list entries that survived such a full message
 	connected [2]bool
 	deleted   [nCids]bool // removed from the store by a del operation
 	req       <-chan *decision.Envelope
@@ -111,7 +110,6 @@ func (x *seqRun) Main() {
 		x.orphan[i] = map[int]bool{}
 		x.goneOrph[i] = map[int]bool{}
 		x.fullDrop[i] = map[int]bool{}
-		x.staleFull[i] = map[int]bool{}
 	}
 	x.w = newWorld(x.cfg)
 	vsched.WaitIdle()
@@ -194,7 +192,6 @@ func (x *seqRun) step(op string) {
 		x.oblig[r] = map[int]bool{}
 		x.squeezed[r] = map[int]bool{}
 		x.fullDrop[r] = map[int]bool{}
-		x.staleFull[r] = map[int]bool{}
 		x.connected[r] = false
 		for _, h := range x.held {
 			if h.role == r {
@@ -519,18 +516,6 @@ func (x *seqRun) recv(r int, spec string) {
 		}
 		x.fail(eng.V("wantlist-stale-entry", "MessageReceived", fmt.Sprintf("want-list of p%d contains %s after MessageReceived(%s): %s -> %s", r+1, cname(c), spec, fmtLedger(pre), fmtLedger(post)), feat("stale_because", reason, "message_without_entries", fmt.Sprint(len(merged) == 0))...))
 	}
-	for c := range x.staleFull[r] {
-		if _, ok := post[c]; !ok {
-			delete(x.staleFull[r], c)
-		}
-	}
-	for c := range post {
-		if _, ok := wants[c]; ok {
-			delete(x.staleFull[r], c) // accepted afresh
-		} else if ms.full {
-			x.staleFull[r][c] = true
-		}
-	}
 	// classification of this message's effect
 	var admitted, rejected, evicted, oldSurvivors []int
 	newcomers := 0
@@ -798,7 +783,7 @@ func (x *seqRun) drain() {
 				if c == cZ {
 					kind = "empty-block"
 				}
-				x.fail(eng.V("want-unanswered", "quiescence", fmt.Sprintf("accepted want %s of p%d (want-list %s) was never answered although the block is in the store, the engine is idle and a receiver waits on the outbox\n%s", cname(c), r+1, fmtLedger(l), x.queueDump()), "cid_kind", kind, "task_dropped_queue_at_limit", fmt.Sprint(x.squeezed[r][c]), "wantlist_entry_stale_since_full_message", fmt.Sprint(x.staleFull[r][c])))
+				x.fail(eng.V("want-unanswered", "quiescence", fmt.Sprintf("accepted want %s of p%d (want-list %s) was never answered although the block is in the store, the engine is idle and a receiver waits on the outbox\n%s", cname(c), r+1, fmtLedger(l), x.queueDump()), "cid_kind", kind, "task_dropped_queue_at_limit", fmt.Sprint(x.squeezed[r][c])))
 			}
 		}
 		for c := range x.oblig[r] {
@@ -849,16 +834,12 @@ func (x *seqRun) stateKey() string {
 		}
 		sort.Ints(og)
 		sb.WriteString(" og=" + names(og))
-		var fd, sf []int
+		var fd []int
 		for c := range x.fullDrop[r] {
 			fd = append(fd, c)
 		}
-		for c := range x.staleFull[r] {
-			sf = append(sf, c)
-		}
 		sort.Ints(fd)
-		sort.Ints(sf)
-		sb.WriteString(" fd=" + names(fd) + " sf=" + names(sf))
+		sb.WriteString(" fd=" + names(fd))
 	}
 	fmt.Fprintf(&sb, "|req=%v held=", x.req != nil)
 	for _, h := range x.held {
